@@ -436,8 +436,16 @@ def eq(fr, l, r, node):
         if isinstance(r, EnumMember):
             if r.cls != l.cls.name:
                 return False
-            if not isinstance(r.value, int):
-                return False
+            if not isinstance(r.value, int) or isinstance(r.value, bool) or r.value < 0:
+                # a member that no wire value denotes: it can only be the result of _missing_
+                miss = I.repo.find_method(l.cls, "_missing_")
+                if miss is None:
+                    return False
+                for m in I.repo.enum_members(l.cls).values():
+                    if isinstance(m.value, int) and m.value >= 0 and I.decide(eq(fr, l.val, m.value, node), f"{fr.fi.name}:{getattr(node, 'lineno', 0)}"):
+                        return False
+                res = I.call(miss, [ClassRef(l.cls), l.val], {}, l.cls)
+                return res == r
             return eq(fr, l.val, r.value, node)
         if isinstance(r, AEnum):
             return eq(fr, l.val, r.val, node) if r.cls is l.cls else False
